@@ -20,7 +20,7 @@ for line in itertools.chain.from_iterable(open(l) for l in logs):
     m = re.match(r"^(C\d\d) DETECTED sig=(\S*)", line)
     if m:
         res[cur]["det"][m.group(1)] = m.group(2); continue
-    if re.match(r"^(C\d\d) (broken|BUILD-FAILED)", line) or "does not apply" in line or line.startswith("SKIPPED"):
+    if re.match(r"^(C\d\d) (broken|BUILD-FAILED)", line) or line.startswith("BUILD-FAILED") or "does not apply" in line or line.startswith("SKIPPED"):
         res[cur]["other"].append(line)
 n = 0
 for sid, r in sorted(res.items()):
